@@ -230,7 +230,7 @@ func groundIndexTerms(asserts []*Term) *groundIdx {
 	return out
 }
 
-const maxInst = 80
+const defaultMaxInst = 80
 
 // instantiate replaces positive universals by finite conjunctions of instances.
 func (f *TF) instantiate(t *Term, pos bool, qm map[*Term]bool, ground *groundIdx, skolems []*Term, left *bool) *Term {
@@ -313,12 +313,12 @@ func (f *TF) instantiate(t *Term, pos bool, qm map[*Term]bool, ground *groundIdx
 					}
 				}
 			}
-			if len(order) >= maxInst {
+			if len(order) >= f.maxInst {
 				break
 			}
 		}
-		if len(order) > maxInst {
-			order = order[:maxInst]
+		if len(order) > f.maxInst {
+			order = order[:f.maxInst]
 		}
 		var insts []*Term
 		for _, c := range order {
@@ -360,6 +360,32 @@ func (f *TF) groundQuery(asserts []*Term) (out []*Term, instantiated bool, remai
 	}
 	if !any {
 		return asserts, false, false
+	}
+	// instance budget: many quantified hypotheses share a smaller per-quantifier cap
+	nq := 0
+	var cnt func(t *Term, seen map[*Term]bool)
+	cnt = func(t *Term, seen map[*Term]bool) {
+		if seen[t] {
+			return
+		}
+		seen[t] = true
+		if t.Op == "forall" || t.Op == "exists" {
+			nq++
+		}
+		for _, a := range t.Args {
+			cnt(a, seen)
+		}
+	}
+	seenQ := map[*Term]bool{}
+	for _, a := range asserts {
+		cnt(a, seenQ)
+	}
+	f.maxInst = defaultMaxInst
+	if nq > 12 {
+		f.maxInst = 960 / nq
+		if f.maxInst < 12 {
+			f.maxInst = 12
+		}
 	}
 	var skolems []*Term
 	sk := make([]*Term, len(asserts))
